@@ -8,7 +8,8 @@
 (*                                                                                      *)
 (* State:  obj  = [fmt |-> "sm" | "ssc", items, charts]  (Codec's representation)        *)
 (*         disk = the last text written (<<>> before the first save)                      *)
-EXTENDS Codec, NoteData, Beat
+EXTENDS Codec, NoteData, Beat, ConvertKeys
+CV == INSTANCE Convert          \* the conversion rules, instantiated on code-point keys through NameOf
 
 VARIABLES obj, disk
 svars == <<obj, disk>>
@@ -81,7 +82,9 @@ SetChartExtra(j, ex) == obj.fmt = "sm" /\ j \in DOMAIN obj.charts /\ obj' = [obj
 (* saving writes a text that the strict tokenizer accepts and that has the documented parameter structure *)
 Saveable(o) == /\ ~(IF o.fmt = "sm" THEN SMObjInGap(Body(o)) \/ SMExtraGap(Body(o)) ELSE SSCObjInGap(Body(o)))
                /\ ~ObjCtxGap(Body(o), o.fmt)
-               /\ (o.fmt = "ssc" => \A j \in DOMAIN o.charts : ChartHasNotes(o.charts[j]))
+               /\ (o.fmt = "sm" => \A i \in DOMAIN o.items : o.items[i].k # K_NOTES)          \* (a property named NOTES reads back as a chart:
+               /\ (o.fmt = "ssc" => \A i \in DOMAIN o.items : o.items[i].k # K_NOTEDATA)      \*  outside C01's / C02's key domain)
+               /\ (o.fmt = "ssc" => \A j \in DOMAIN o.charts : ChartHasNotes(o.charts[j]) /\ ~(MHas(o.charts[j], K_NOTES) /\ MHas(o.charts[j], K_NOTES2)))
                /\ (o.fmt = "sm" => \A j \in DOMAIN o.charts : \A f \in 1..6 : o.charts[j].fields[f] = Strip(o.charts[j].fields[f]))
 Save(text) ==
   /\ Saveable(obj)
@@ -107,6 +110,33 @@ ToSSC(tmpl, ctmpl, res) ==
          fieldsAsItems(ch) == [f \in 1..6 |-> [k |-> <<K_STEPSTYPE, K_DESCRIPTION, K_DIFFICULTY, K_METER, K_RADARVALUES, K_NOTES>>[f], v |-> ch.fields[f]]]
      IN obj' = [fmt |-> "ssc", items |-> copyAll(tmpl, obj.items),
                 charts |-> [j \in DOMAIN obj.charts |-> copyAll(ctmpl, fieldsAsItems(obj.charts[j]))]]
+  /\ UNCHANGED disk
+
+(* ssc_to_sm under the caller's policy `beh` (a sequence of [kind, b]) over the library's blank templates (logged): *)
+(* Convert.tla's rule on this object; outcome, named property and result must be the rule's.                          *)
+SMFieldKeys == <<K_STEPSTYPE, K_DESCRIPTION, K_DIFFICULTY, K_METER, K_RADARVALUES, K_NOTES>>
+BehOf(beh) == [k \in {beh[x].kind : x \in DOMAIN beh} |-> beh[CHOOSE x \in DOMAIN beh : beh[x].kind = k].b]
+ToSMResult(o, tmpl, ctmpl, beh) ==
+  CV!SscToSmG([items |-> o.items, charts |-> o.charts], [items |-> tmpl, charts |-> <<>>],
+              [f \in 1..6 |-> [k |-> SMFieldKeys[f], v |-> ctmpl.fields[f]]], BehOf(beh), NameOf)
+(* outside what C17 claims: key-only (None) values of listed properties, a WARPS value of blanks only, and the known *)
+(* finding (a chart-level copy of a key an SM chart cannot hold ends in a bare KeyError)                               *)
+ToSMInDomain(o, tmpl, ctmpl, beh) ==
+  /\ o.fmt = "ssc"
+  /\ ~\E i \in DOMAIN o.items : IsNone(o.items[i].v) /\ CV!SMSimfileKind(NameOf(o.items[i].k)) # ""
+  /\ ~\E j \in DOMAIN o.charts : \E i \in DOMAIN o.charts[j] : IsNone(o.charts[j][i].v) /\ CV!SMChartKind(NameOf(o.charts[j][i].k)) # ""
+  /\ ~\E i \in DOMAIN o.items : NameOf(o.items[i].k) = "WARPS" /\ ~IsNone(o.items[i].v) /\ o.items[i].v # <<>> /\ AllSpace(o.items[i].v)
+  /\ ToSMResult(o, tmpl, ctmpl, beh).st # "KeyError"
+ToSM(tmpl, ctmpl, beh, res) ==
+  /\ obj.fmt = "ssc"
+  /\ LET r == ToSMResult(obj, tmpl, ctmpl, beh) IN
+     IF r.st # "ok" THEN /\ res.st = r.st
+                         /\ (r.st = "InvalidPropertyException" => Contains(res.msg, r.key))     \* the message names the first offender
+                         /\ UNCHANGED obj
+     ELSE /\ res.st = "ok"
+          /\ obj' = [fmt |-> "sm", items |-> r.items,
+                     charts |-> [j \in DOMAIN r.charts |-> [fields |-> [f \in 1..6 |-> CV!Get(r.charts[j], SMFieldKeys[f])],
+                                                              extra |-> ctmpl.extra]]]
   /\ UNCHANGED disk
 
 (* reading a chart's notes / the simfile's timing strings through the library's readers (NoteData.tla, Beat.tla) *)
